@@ -109,6 +109,10 @@ def multis(tier):
     return out
 
 
+def prepare(tier):
+    _docs(tier)
+
+
 def units(tier):
     return [[cls, call] for cls in T.CLASSES for call in T.CALLABLES[cls]]
 
